@@ -28,6 +28,9 @@ ENCODINGS = ["utf-8", "UTF-8", "utf8", "U8", "ascii", "US-ASCII", "latin-1", "la
 PROPERTY_DISPLAY = {p: p.replace("_", " ").capitalize() for p in M.ALL_PROPERTIES}
 
 
+BACKSLASH_FORM = {0x22: '\\"', 0x27: "\\'", 0x5C: "\\\\", 7: "\\a", 8: "\\b", 10: "\\n", 11: "\\v", 12: "\\f", 13: "\\r"}
+
+
 def delimiter_spellings(code):
     ch = chr(code)
     out = []
@@ -43,6 +46,10 @@ def delimiter_spellings(code):
             out.append(q + "\\u%04x" % code + q)
     if code == 9:
         out += ['"\\t"', "'\\t'"]
+    # the backslash forms of the characters a quoted string cannot hold as they are - among them the quote that
+    # encloses the string - and the other one-letter escapes
+    if code in BACKSLASH_FORM:
+        out += [q + BACKSLASH_FORM[code] + q for q in "'\""]
     if code in SYMBOL_OF:
         name = SYMBOL_OF[code]
         out += [name, name.upper(), name.capitalize()]
